@@ -69,6 +69,9 @@ AskProblems ==
     \* ... and in particular the alias lookups of a client question by MAX_CNAME_LOOKUPS
     \cup (IF e.phase = 1 /\ ~AliasBudgetOk(Append(SubSeq(log, qfrom, Len(log)), [qn |-> e.qn, recs |-> {}]), nq)
           THEN {"alias-lookups-exceed-limit"} ELSE {})
+    \* ... and how deep aliases are followed by the configured recursion_limit
+    \cup (IF e.phase = 1 /\ ~AliasDepthOk(SubSeq(log, qfrom, Len(log)), e.qn, lim)
+          THEN {"alias-chase-deeper-than-recursion-limit"} ELSE {})
     \cup (IF "capped" \in DOMAIN e THEN {"did-not-terminate"} ELSE {})
 
 AskUpdate ==
